@@ -10,25 +10,26 @@ Proof. induction l1 as [|x r IH]; cbn [zsum app]; lia. Qed.
 (* the running total charged equals the sum of the stakes of the parts recorded so far *)
 Definition ws_sum_inv (s : wstate) : Prop := ws_fulfilled s = zsum (map f_stake (ws_parts s)).
 
+Lemma iter_betside_sum A p0 so s ba fu pr pa bk :
+  iter_betside A p0 so s = (ba, fu, pr, pa, bk) -> ws_sum_inv s -> fu = zsum (map f_stake pa).
+Proof.
+  unfold iter_betside, ws_sum_inv. intros H Hinv. destruct so as [[stake pay]|]; inv H; [|exact Hinv].
+  rewrite map_app, zsum_app. cbn [map zsum f_stake]. lia.
+Qed.
+
 Lemma wager_iter_sum A idx s s' : wager_iter A idx s = Some s' -> ws_sum_inv s -> ws_sum_inv s'.
 Proof.
-  unfold wager_iter, ws_sum_inv. intros H Hinv.
+  unfold wager_iter. intros H Hinv.
   destruct (fmap_get (ws_fmap s) idx) as [it|]; [|discriminate].
   destruct (fi_pe it) as [pe0|]; [|discriminate].
-  (* the three-way switch *)
-  set (avail := avail_liq (wa_mult A) (fi_part it) pe0) in *.
-  set (tprofit := dec_trunc_int (ws_profit s)) in *.
-  destruct (avail <=? 0) eqn:E1.
-  - (* nothing fulfilled *)
-    cbv zeta in H. dmatch H; inv H; cbn [ws_fulfilled ws_parts]; exact Hinv.
-  - destruct (avail <=? tprofit) eqn:E2.
-    + destruct (bet_amount_int (wa_oddsval A) (dec_of_int avail) (ws_carry s)) as [stake c] eqn:EB.
-      destruct (fulfil_records (fi_part it) pe0 (wa_sel A) stake avail) as [p e] eqn:EF.
-      cbv zeta in H. dmatch H; inv H; cbn [ws_fulfilled ws_parts];
-        rewrite map_app, zsum_app; cbn [map zsum f_stake]; lia.
-    + destruct (fulfil_records (fi_part it) pe0 (wa_sel A) (ws_betamt s) tprofit) as [p e] eqn:EF.
-      cbv zeta in H. dmatch H; inv H; cbn [ws_fulfilled ws_parts];
-        rewrite map_app, zsum_app; cbn [map zsum f_stake]; lia.
+  destruct (iter_switch A (fi_part it) pe0 s) as [[[[p1 pe1] setf] so] c1].
+  destruct (iter_betside A (fi_part it) so s) as [[[[ba fu] pr] pa] bk0] eqn:EB.
+  pose proof (iter_betside_sum _ _ _ _ _ _ _ _ _ EB Hinv) as Hs.
+  destruct (iter_fulfilled A idx it setf p1 pe1 (ws_uq s) bk0) as [[[[p3 pe3] uq3] bk1]|]; [|discriminate].
+  destruct ((p_enf p3 =? 0) && eligible_pre p3).
+  - destruct (iter_refresh A idx it p3 _ (ws_fmap s) uq3) as [[bk5 fm2] uq5].
+    inversion H. unfold ws_sum_inv. cbn [ws_fulfilled ws_parts]. exact Hs.
+  - inversion H. unfold ws_sum_inv. cbn [ws_fulfilled ws_parts]. exact Hs.
 Qed.
 
 Lemma wager_loop_sum fuel : forall A q s s', wager_loop fuel A q s = Some s' -> ws_sum_inv s -> ws_sum_inv s'.
